@@ -39,7 +39,7 @@ def outdir(prop, tier):
     return d
 
 
-ASAN_ENV = {"ASAN_OPTIONS": "detect_leaks=0:abort_on_error=0:exitcode=5:allocator_may_return_null=1:handle_segv=1",
+ASAN_ENV = {"ASAN_OPTIONS": "detect_leaks=0:abort_on_error=0:exitcode=5:allocator_may_return_null=1:handle_segv=1:allow_user_segv_handler=1",
             "UBSAN_OPTIONS": "halt_on_error=1:exitcode=5:print_stacktrace=1"}
 
 
